@@ -110,9 +110,10 @@ def coq_dcomb(j):
         return None
 
 
-def coq_pwf(d):
-    """from the harness dump of an in-memory workflow"""
+def coq_pwf(d, nodes=None):
+    """from the harness dump of an in-memory workflow (+ the tree views of its ExecuteSteps)"""
     steps = []
+    nodes = nodes or {}
     for st in d["steps"].values():
         if st["cls"] == "ScatterStep":
             k = "KScatter"
@@ -127,8 +128,16 @@ def coq_pwf(d):
             k = f"(KPlain {coq_str(st['fcls'])})"
         elif st["cls"].startswith("JobIn") and st["fcls"].startswith("harness.props.c08_classes."):
             k = f"(KJobIn {coq_str(st['fcls'])})"
-        elif st["cls"] == "ExecuteStep" and not st["procs"] and st["command"] is None:
-            k = f"(KExecute {coq_smap(st['conns'])})"
+        elif st["cls"] == "ExecuteStep":
+            nd = nodes.get(st["name"], {"procs": {}, "command": None})
+            if set(nd["procs"]) != set(st["procs"]) or (nd["command"] is None) != (st["command"] is None):
+                return None
+            ps = [coq_ptree(x) for x in nd["procs"].values()]
+            cmd = coq_ptree(nd["command"]) if nd["command"] is not None else None
+            if any(x is None for x in ps) or (nd["command"] is not None and cmd is None):
+                return None
+            k = (f"(KExecute {coq_smap(st['conns'])} {coq_strs(list(nd['procs']))} {coq_list(ps)} "
+                 f"{coq_opt(cmd, lambda x: x)})")
         elif st["cls"] == "DeployStep":
             dc = coq_pdeploy(st["dep"])
             if dc is None:
@@ -179,8 +188,13 @@ def coq_wdb(t):
                 dp = f"(DPlain {coq_str(typ)})"
             elif typ.startswith("harness.props.c08_classes.JobIn") and list(params) == ["job_port"]:
                 dp = f"(DJobIn {coq_str(typ)} {coq_nat(params['job_port'])})"
-            elif cls == "ExecuteStep" and params["output_processors"] == {} and params["command"] is None:
-                dp = f"(DExecute {coq_nat(params['job_port'])} {coq_smap(params['output_connectors'])})"
+            elif cls == "ExecuteStep":
+                ps = [coq_dtree(x) for x in params["output_processors"].values()]
+                cmd = coq_dtree(params["command"]) if params["command"] else None
+                if any(x is None for x in ps) or (params["command"] and cmd is None):
+                    return None
+                dp = (f"(DExecute {coq_nat(params['job_port'])} {coq_smap(params['output_connectors'])} "
+                      f"{coq_strs(list(params['output_processors']))} {coq_list(ps)} {coq_opt(cmd, lambda x: x)})")
             elif cls == "DeployStep":
                 dp = f"(DDeploy {coq_nat(params['deployment_config'])} {coq_nat(params['connector_port'])})"
             elif cls == "ScheduleStep" and not params.get("hardware_requirement"):
@@ -264,6 +278,51 @@ def coq_cdb(t):
         return None
 
 
+# ---------------------------------------------------------------------------------------- "type + params" trees
+def tree_children(params):
+    """(keys, list of child nodes) of a stored {"type", "params"} node: one optional child under "processor",
+    a list or a dict of children under "processors"."""
+    if isinstance(params.get("processor"), dict):
+        return ["processor"], [params["processor"]]
+    ps = params.get("processors")
+    if isinstance(ps, dict):
+        return list(ps), list(ps.values())
+    if isinstance(ps, list):
+        return [], list(ps)
+    return [], []
+
+
+def coq_jmap(d):
+    return coq_list([f"({coq_str(k)}, {coq_jv(v)})" for k, v in d.items()])
+
+
+def coq_dtree(j):
+    """from the stored JSON"""
+    try:
+        pr = j["params"]
+        plain = {k: v for k, v in pr.items() if k not in ("processor", "processors", "workflow")}
+        if not json_ok(plain) or plain.get("target") is not None:
+            return None
+        keys, subs = tree_children(pr)
+        ts = [coq_dtree(x) for x in subs]
+        if any(t is None for t in ts):
+            return None
+        wid = coq_opt(pr.get("workflow"), coq_nat)
+        return f"(DNode {coq_str(j['type'])} {coq_jmap(plain)} {wid} {coq_strs(keys)} {coq_list(ts)})"
+    except (KeyError, TypeError, AttributeError, AssertionError):
+        return None
+
+
+def coq_ptree(n):
+    """from the harness view of an in-memory object: {"cls", "params", "keys", "subs"}"""
+    if n is None or not json_ok(n["params"]) or n["params"].get("target") is not None:
+        return None
+    ts = [coq_ptree(x) for x in n["subs"]]
+    if any(t is None for t in ts):
+        return None
+    return f"(PNode {coq_str(n['cls'])} {coq_jmap(n['params'])} {coq_strs(n['keys'])} {coq_list(ts)})"
+
+
 class C08(Prop):
     ID = "C08"
     PROPS_FILE = "Props/C08.v"
@@ -290,10 +349,15 @@ class C08(Prop):
         "for the pre-fix shallow copies. DeployStep (its DeploymentConfig) and ScheduleStep (its binding, prefix, "
         "directories) are inside the workflow theorem, the deployment/target/filter tables threaded through the save. "
         "Tied to /repo on every case: the model's loaders run on the rows the real save wrote and are compared with the "
-        "real load; the model's saves are compared with those rows (configuration ids up to renaming). Commands and "
-        "output processors (hence ExecuteSteps with output ports), hardware requirements, CWL entities and the absence of "
-        "persistent ids in the builder copy are NOT modelled (judged by the oracle on the real code).")
-    LEVEL_NOTE = ("Partial: commands/output processors, hardware requirements, port classes with "
+        "real load; the model's saves are compared with those rows (configuration ids up to renaming). Every entity "
+        "stored as nested {type, params} JSON -- a command with its command token processors, command output processors, "
+        "token processors, hardware requirements (generic and CWL classes) -- is a tree whose save/load round trip is "
+        "proved for every tree (C08_command_roundtrip) and which ExecuteSteps carry inside the workflow theorem. "
+        "Processors with a target, a ScheduleStep's hardware requirement, CWL step/port/transformer classes and the "
+        "absence of persistent ids in the builder copy are NOT modelled (judged by the oracle on the real code).")
+    LEVEL_NOTE = ("Partial: for the {type, params} trees the model fixes the shape only (own parameters verbatim, children "
+                  "recursively); which attributes are parameters is read from the stored keys and checked by the oracle "
+                  "over all attributes. Processors with a target, CWL step classes, port classes with "
                   "parameters and CWL entities are outside the workflow theorem; dict and row order and the interleaving "
                   "of concurrent INSERTs are abstracted (compared as maps/sets); shared configuration objects are saved "
                   "once by the code and per occurrence by the tree model; independence is proved at the database layer "
@@ -304,7 +368,8 @@ class C08(Prop):
             "combinator and loop-combinator steps with nested dot/cartesian/loop/loop-termination trees, concrete "
             "subclasses of Transformer/ConditionalStep/LoopOutputStep/TransferStep/InputInjectorStep, ExecuteStep with "
             "output connectors, DeployStep and ScheduleStep with their deployment/binding configurations), tokens on ports, input/output ports, nested config; cfg: bindings of 0-3 targets (plain and "
-            "local, deployments with wraps/policy/workdir variants) and 0-2 filters. Non-trivial = a token tree with a container, or a workflow with >=1 step. Distinct = "
+            "local, deployments with wraps/policy/workdir variants) and 0-2 filters; proc: command / command-token-processor / output-processor / token-processor / hardware trees to "
+            "depth 3 over the generic and CWL classes. Non-trivial = a token tree with a container, or a workflow with >=1 step. Distinct = "
             "distinct canonical JSON.")
     TRUSTED = ("models: Persist/Model.v (token classes incl. JobToken/Job over the token table), Persist/WfModel.v (Workflow, "
                "Port, Step and the step classes listed in LEVEL_TEXT over the workflow/port/step/dependency tables), "
@@ -383,6 +448,12 @@ class C08(Prop):
                 st["in"][rng.choice(["a", "b", "in", "x y"]) + str(j)] = rng.randrange(nports)
             for j in range(rng.randrange(0, 3)):
                 st["out"][rng.choice(["o", "out", "é"]) + str(j)] = rng.randrange(nports)
+            if kind == "plain" and rng.random() < 0.25:
+                # the CWL conditional steps (skip ports): judged by the oracle only
+                kind = st["kind"] = rng.choice(["cwlempty", "cwlcond"])
+                st["method"] = rng.choice(["dotproduct", "nested_crossproduct", "flat_crossproduct"])
+                st["expr"], st["lib"], st["full_js"] = "$(inputs.x > 1)", rng.choice([None, ["lib"]]), rng.random() < 0.5
+                st["skip"] = {f"sk{j}": rng.randrange(nports) for j in range(rng.randrange(0, 3))}
             if kind == "plain":
                 st["cls"] = rng.choice(["PlainTransformer", "PlainConditional", "PlainLoopOutput"])
                 if st["cls"] == "PlainLoopOutput":
@@ -393,6 +464,8 @@ class C08(Prop):
                 st["out"] = dict(list(st["out"].items())[:1])
             elif kind == "execute":
                 st["conns"] = {k: self._str(rng) for k in list(st["out"])[:rng.randrange(0, 3)]}
+                st["procs"] = {k: self._ptree(rng, "out", 1) for k in st["out"] if rng.random() < 0.7}
+                st["command"] = self._ptree(rng, "cmd") if rng.random() < 0.5 else None
             elif kind == "deploy":
                 st["dep"] = self._dep(rng)
                 st["in"], st["out"] = {}, {}
@@ -458,11 +531,90 @@ class C08(Prop):
             case["share"] = plain[:2]
         return case
 
+    # -- "type + params" trees
+    def _ptree(self, rng, family, d=0):
+        nm = self._str(rng) or "n"
+        sf = lambda: rng.choice([None, [], [{"pattern": ".bai", "required": True}, {"pattern": "^.x", "required": "$(1 == 1)"}]])
+        if family == "cmdtok":
+            r = rng.random()
+            if d >= 3 or r < 0.35:
+                if rng.random() < 0.3:
+                    return {"c": "CWLForward", "a": {"name": nm, "token_type": rng.choice([None, "string", "File"])}}
+                return {"c": "CWLTok", "a": {"name": nm, "expression": rng.choice([None, "$(inputs.x)", {"k": [1]}, 3]),
+                                             "token_type": rng.choice([None, "int", "string"]),
+                                             "is_shell_command": rng.random() < 0.5, "item_separator": rng.choice([None, ","]),
+                                             "position": rng.choice([0, 2, "$(self)"]), "prefix": rng.choice([None, "--p"]),
+                                             "separate": rng.random() < 0.5, "shell_quote": rng.random() < 0.5},
+                        "sub": self._ptree(rng, family, d + 1) if rng.random() < 0.4 and d < 3 else None}
+            if r < 0.55:
+                return {"c": rng.choice(["MapTok", "CWLMapTok"]), "a": {"name": nm}, "sub": self._ptree(rng, family, d + 1)}
+            if r < 0.8:
+                ks = list(dict.fromkeys(self._str(rng) for _ in range(rng.randrange(0, 3))))
+                return {"c": rng.choice(["ObjTok", "CWLObjTok"]), "a": {"name": nm},
+                        "sub": [[k, self._ptree(rng, family, d + 1)] for k in ks]}
+            return {"c": "UnionTok", "a": {"name": nm}, "sub": [self._ptree(rng, family, d + 1) for _ in range(rng.randrange(0, 3))]}
+        if family == "cmd":
+            return {"c": "CWLCommand",
+                    "a": {"absolute_initial_workdir_allowed": rng.random() < 0.5, "base_command": rng.choice([None, [], ["echo", "a b"]]),
+                          "environment": rng.choice([None, {"A": "$(inputs.a)"}]), "expression_lib": rng.choice([None, ["lib"]]),
+                          "failure_codes": rng.choice([None, [1, 2]]), "full_js": rng.random() < 0.5,
+                          "initial_work_dir": rng.choice([None, "/home", [{"entry": "x", "entryname": "y"}]]),
+                          "inplace_update": rng.random() < 0.5, "is_shell_command": rng.random() < 0.5,
+                          "success_codes": rng.choice([None, [0]]), "step_stderr": rng.choice([None, "err"]),
+                          "step_stdin": rng.choice([None, "in"]), "step_stdout": rng.choice([None, "out"]),
+                          "time_limit": rng.choice([None, 100, "$(1)"])},
+                    "sub": [self._ptree(rng, "cmdtok", 1) for _ in range(rng.randrange(0, 4))]}
+        if family == "out":
+            r = rng.random()
+            if d >= 3 or r < 0.4:
+                if rng.random() < 0.5:
+                    return {"c": "DefaultOut", "a": {"name": nm}}
+                return {"c": "CWLOut", "a": {"name": nm, "token_type": rng.choice([None, "File", ["null", "string"]]),
+                                             "enum_symbols": rng.choice([None, ["a", "b"]]), "expression_lib": rng.choice([None, ["l"]]),
+                                             "file_format": rng.choice([None, "fmt"]), "full_js": rng.random() < 0.5,
+                                             "glob": rng.choice([None, "*.txt"]), "load_contents": rng.random() < 0.5,
+                                             "load_listing": rng.choice([None, 0, 1, 2]), "optional": rng.random() < 0.5,
+                                             "output_eval": rng.choice([None, "$(self)"]), "secondary_files": sf(),
+                                             "single": rng.random() < 0.5, "streamable": rng.random() < 0.5}}
+            if r < 0.6:
+                return {"c": rng.choice(["MapOut", "PopOut"]), "a": {"name": nm}, "sub": self._ptree(rng, family, d + 1)}
+            if r < 0.8:
+                ks = list(dict.fromkeys(self._str(rng) for _ in range(rng.randrange(0, 3))))
+                return {"c": "ObjOut", "a": {"name": nm}, "sub": [[k, self._ptree(rng, family, d + 1)] for k in ks]}
+            return {"c": "UnionOut", "a": {"name": nm}, "sub": [self._ptree(rng, family, d + 1) for _ in range(rng.randrange(0, 3))]}
+        if family == "tp":
+            r = rng.random()
+            if d >= 3 or r < 0.4:
+                if rng.random() < 0.4:
+                    return {"c": "NullTP", "a": {"name": nm}}
+                return {"c": "CWLTP", "a": {"name": nm, "token_type": rng.choice([None, "enum", ["File", "null"]]),
+                                            "enum_symbols": rng.choice([None, ["p1"]]), "expression_lib": rng.choice([None, ["e"]]),
+                                            "file_format": rng.choice([None, "d"]), "full_js": rng.random() < 0.5,
+                                            "load_contents": rng.choice([None, True, False]), "load_listing": rng.choice([None, 0, 2]),
+                                            "only_propagate_secondary_files": rng.random() < 0.5, "secondary_files": sf(),
+                                            "streamable": rng.random() < 0.5}}
+            if r < 0.6:
+                return {"c": "MapTP", "a": {"name": nm}, "sub": self._ptree(rng, family, d + 1)}
+            if r < 0.8:
+                ks = list(dict.fromkeys(self._str(rng) for _ in range(rng.randrange(0, 3))))
+                return {"c": "ObjTP", "a": {"name": nm}, "sub": [[k, self._ptree(rng, family, d + 1)] for k in ks]}
+            return {"c": "UnionTP", "a": {"name": nm}, "sub": [self._ptree(rng, family, d + 1) for _ in range(rng.randrange(0, 3))]}
+        if family == "hw":
+            amt = lambda: rng.choice([None, 1, 1024, "$(inputs.n)"])
+            return {"c": "CWLHw", "a": {"cwl_version": "v1.2", "cores": amt(), "memory": amt(), "tmpdir": amt(), "outdir": amt(),
+                                        "full_js": rng.random() < 0.5, "expression_lib": rng.choice([None, ["lib"]])}}
+        raise ValueError(family)
+
+    def _proc(self, rng):
+        family = rng.choice(["cmd", "cmd", "cmdtok", "out", "out", "tp", "hw"])
+        return {"f": "proc", "family": family, "tree": self._ptree(rng, family)}
+
     def gen(self, rng, tier):
         n = {"quick": 150, "thorough": 1500, "extended": 800}[tier]
         cases = [{"f": "tok", "t": self._tok(rng)} for _ in range(n)]
         cases += [self._wf(rng) for _ in range(n // 2)]
         cases += [self._cfg(rng) for _ in range(n // 3)]
+        cases += [self._proc(rng) for _ in range(n // 2)]
         return cases
 
     # ---------------------------------------------------------------- implementation
@@ -642,8 +794,12 @@ class C08(Prop):
                 d["depth"] = s.depth
             if isinstance(s, ws.ExecuteStep):
                 d["conns"] = dict(s.output_connectors)
-                d["procs"] = sorted(s.output_processors)
-                d["command"] = None if s.command is None else type(s.command).__name__
+                d["procs"] = {k: self._dump_obj(v) for k, v in s.output_processors.items()}
+                d["command"] = self._dump_obj(s.command)
+            if hasattr(s, "skip_ports"):
+                d["skip_ports"] = dict(s.skip_ports)
+                d["cwl"] = {k: self._plain(getattr(s, k)) for k in ("scatter_method", "expression", "expression_lib", "full_js")
+                            if hasattr(s, k)}
             if isinstance(s, ws.DeployStep):
                 d["dep"] = self._dump_dep(s.deployment_config)
             if isinstance(s, ws.ScheduleStep):
@@ -662,6 +818,16 @@ class C08(Prop):
         return {"name": wf.name, "config": copy.deepcopy(wf.config), "output_ports": dict(wf.output_ports),
                 "input_ports": dict(wf.input_ports), "steps": steps, "ports": ports,
                 **({"has_id": wf.persistent_id is not None} if ids else {})}
+
+    def _exec_nodes(self, wf, tables):
+        out = {}
+        rows = {r[1]: r[5] for r in tables["step"]}
+        for n, st in wf.steps.items():
+            if isinstance(st, self.m["wstep"].ExecuteStep) and n in rows:
+                pr = rows[n]
+                out[n] = {"procs": {k: self._node(v, pr.get("output_processors", {}).get(k)) for k, v in st.output_processors.items()},
+                          "command": None if st.command is None else self._node(st.command, pr.get("command"))}
+        return out
 
     async def _run_wf(self, case):
         m = self.m
@@ -689,6 +855,15 @@ class C08(Prop):
                 elif st["kind"] == "execute":
                     s = wf.create_step(m["wstep"].ExecuteStep, name=st["name"], job_port=ports[st["own_port"]])
                     s.output_connectors = dict(st["conns"])
+                elif st["kind"] in ("cwlempty", "cwlcond"):
+                    from streamflow.cwl import step as cwlstep
+                    if st["kind"] == "cwlempty":
+                        s = wf.create_step(cwlstep.CWLEmptyScatterConditionalStep, name=st["name"], scatter_method=st["method"])
+                    else:
+                        s = wf.create_step(cwlstep.CWLConditionalStep, name=st["name"], expression=st["expr"],
+                                           expression_lib=st["lib"], full_js=st["full_js"])
+                    for n, p in st["skip"].items():
+                        s.add_skip_port(n, ports[p])
                 elif st["kind"] == "deploy":
                     b = self._mk_binding({"targets": [{"local": False, "dep": st["dep"], "locations": 1, "service": None,
                                                        "workdir": None}], "filters": []})
@@ -704,7 +879,12 @@ class C08(Prop):
                 for n, p in st["in"].items():
                     s.add_input_port(n, ports[p])
                 for n, p in st["out"].items():
-                    s.add_output_port(n, ports[p])
+                    if st["kind"] == "execute" and n in st.get("procs", {}):
+                        s.add_output_port(n, ports[p], self._mk_tree(st["procs"][n], wf))
+                    else:
+                        s.add_output_port(n, ports[p])
+                if st["kind"] == "execute" and st.get("command"):
+                    s.command = self._mk_tree({**st["command"], "_step": s}, wf)
                 s.status = m["Status"](st["status"])
                 # what every terminate() leaves behind: terminated is set for each final status
                 s.terminated = st["status"] in (3, 4, 5, 6)
@@ -730,6 +910,7 @@ class C08(Prop):
             l2 = await m["DLC"](ctx.database).load_workflow(wid)
             cp = await m["WB"](ctx.database, deep_copy=True).load_workflow(wid)
             o = {"tables": tables, "wid": wid, "orig": self._dump_wf(wf), "l1": self._dump_wf(l1), "l2": self._dump_wf(l2),
+                 "orig_nodes": self._exec_nodes(wf, tables), "l1_nodes": self._exec_nodes(l1, tables),
                  "copy": self._dump_wf(cp, ids=False),
                  "copy_ids": [x.persistent_id for x in [cp, *cp.ports.values(), *cp.steps.values()]
                               if x.persistent_id is not None],
@@ -751,6 +932,9 @@ class C08(Prop):
                 s.output_ports["intruder"] = "x"
                 if hasattr(s, "output_connectors"):
                     s.output_connectors["intruder"] = "x"
+                    for pr in s.output_processors.values():
+                        self._scribble(pr)
+                    self._scribble(s.command)
                 if hasattr(s, "deployment_config"):
                     s.deployment_config.config["intruder"] = 1
                 if hasattr(s, "binding_config"):
@@ -773,6 +957,182 @@ class C08(Prop):
             return o
         finally:
             await ctx.database.close()
+
+    # -- "type + params" trees: commands, command token processors, output processors, token processors, hardware
+    def _plain(self, v):
+        import enum
+        if isinstance(v, enum.Enum):
+            return v.value
+        if isinstance(v, (list, tuple)):
+            return [self._plain(x) for x in v]
+        if isinstance(v, dict):
+            return {k: self._plain(x) for k, x in v.items()}
+        if v is None or isinstance(v, (bool, int, str)):
+            return v
+        if type(v).__name__ == "SecondaryFile":
+            return {"pattern": v.pattern, "required": v.required}
+        return {"__object__": type(v).__name__}
+
+    def _obj_children(self, obj):
+        if getattr(obj, "processor", None) is not None and not isinstance(getattr(obj, "processor", None), (list, dict)):
+            return ["processor"], [obj.processor]
+        ps = getattr(obj, "processors", None)
+        if isinstance(ps, dict):
+            return list(ps), list(ps.values())
+        if isinstance(ps, list):
+            return [], list(ps)
+        return [], []
+
+    def _node(self, obj, j):
+        """the model's view of an in-memory object: its own parameters are the attributes named like the stored ones"""
+        keys, subs = self._obj_children(obj)
+        jkeys, jsubs = tree_children(j["params"]) if isinstance(j, dict) and isinstance(j.get("params"), dict) else ([], [])
+        plain = {}
+        for k in (j["params"] if isinstance(j, dict) and isinstance(j.get("params"), dict) else {}):
+            if k in ("processor", "processors", "workflow"):
+                continue
+            plain[k] = self._plain(getattr(obj, k)) if hasattr(obj, k) else {"__missing__": k}
+        return {"cls": self.m["utils"].get_class_fullname(type(obj)), "params": plain, "keys": keys,
+                "subs": [self._node(c, jsubs[i] if i < len(jsubs) else None) for i, c in enumerate(subs)]}
+
+    def _dump_obj(self, obj, depth=0):
+        """every attribute of the object, recursively (back references to the workflow / step left out): the oracle's view"""
+        if depth > 12:
+            return "<deep>"
+        if obj is None or isinstance(obj, (bool, int, str)):
+            return obj
+        import enum
+        if isinstance(obj, enum.Enum):
+            return {"__enum__": obj.value}
+        if isinstance(obj, (list, tuple)):
+            return [self._dump_obj(x, depth + 1) for x in obj]
+        if isinstance(obj, dict):
+            return {str(k): self._dump_obj(x, depth + 1) for k, x in obj.items()}
+        dm = self.m["dep"]
+        if isinstance(obj, dm.Target):
+            return {"__target__": self._dump_binding(self.m["BindingConfig"](targets=[obj], filters=[]))["targets"][0]}
+        attrs = dict(vars(obj)) if hasattr(obj, "__dict__") else {k: getattr(obj, k) for k in getattr(obj, "__slots__", ())}
+        return {"__cls__": self.m["utils"].get_class_fullname(type(obj)),
+                **{k: self._dump_obj(v, depth + 1) for k, v in sorted(attrs.items())
+                   if k not in ("workflow", "step", "persistent_id", "_saving")}}
+
+    def _mk_tree(self, t, wf):
+        """build a real object from the case description {"c": class key, "a": kwargs, "sub": child | [..] | {..}}"""
+        from streamflow.core import processor as cp
+        from streamflow.cwl import command as cc
+        from streamflow.cwl import processor as cwp
+        from streamflow.cwl.hardware import CWLHardwareRequirement
+        from streamflow.cwl.utils import LoadListing, SecondaryFile
+        from streamflow.workflow import command as wc
+        from streamflow.workflow.step import DefaultCommandOutputProcessor
+
+        c, a = t["c"], copy.deepcopy(t.get("a", {}))
+        sub = t.get("sub")
+        kid = lambda x: self._mk_tree(x, wf)
+        if "load_listing" in a and a["load_listing"] is not None:
+            a["load_listing"] = LoadListing(a["load_listing"])
+        if "secondary_files" in a and a["secondary_files"] is not None:
+            a["secondary_files"] = [SecondaryFile(x["pattern"], x["required"]) for x in a["secondary_files"]]
+        if c == "CWLCommand":
+            return cc.CWLCommand(step=t.get("_step"), processors=[kid(x) for x in sub or []], **a)
+        if c == "CWLTok":
+            return cc.CWLCommandTokenProcessor(processor=kid(sub) if sub else None, **a)
+        if c == "CWLForward":
+            return cc.CWLForwardCommandTokenProcessor(**a)
+        if c in ("MapTok", "CWLMapTok"):
+            return (wc.MapCommandTokenProcessor if c == "MapTok" else cc.CWLMapCommandTokenProcessor)(processor=kid(sub), **a)
+        if c in ("ObjTok", "CWLObjTok"):
+            return (wc.ObjectCommandTokenProcessor if c == "ObjTok" else cc.CWLObjectCommandTokenProcessor)(
+                processors={k: kid(x) for k, x in sub}, **a)
+        if c == "UnionTok":
+            return wc.UnionCommandTokenProcessor(processors=[kid(x) for x in sub], **a)
+        if c == "DefaultOut":
+            return DefaultCommandOutputProcessor(workflow=wf, **a)
+        if c == "CWLOut":
+            return cwp.CWLCommandOutputProcessor(workflow=wf, **a)
+        if c in ("MapOut", "PopOut"):
+            return (cp.MapCommandOutputProcessor if c == "MapOut" else cp.PopCommandOutputProcessor)(
+                workflow=wf, processor=kid(sub), **a)
+        if c == "ObjOut":
+            return cp.ObjectCommandOutputProcessor(workflow=wf, processors={k: kid(x) for k, x in sub}, **a)
+        if c == "UnionOut":
+            return cp.UnionCommandOutputProcessor(workflow=wf, processors=[kid(x) for x in sub], **a)
+        if c == "NullTP":
+            return cp.NullTokenProcessor(workflow=wf, **a)
+        if c == "CWLTP":
+            return cwp.CWLTokenProcessor(workflow=wf, **a)
+        if c == "MapTP":
+            return cp.MapTokenProcessor(workflow=wf, processor=kid(sub), **a)
+        if c == "ObjTP":
+            return cp.ObjectTokenProcessor(workflow=wf, processors={k: kid(x) for k, x in sub}, **a)
+        if c == "UnionTP":
+            return cp.UnionTokenProcessor(workflow=wf, processors=[kid(x) for x in sub], **a)
+        if c == "CWLHw":
+            return CWLHardwareRequirement(**a)
+        raise ValueError(c)
+
+    async def _load_tree(self, family, row, ctx, step=None):
+        from streamflow.core import processor as cp
+        from streamflow.core.scheduling import HardwareRequirement
+        from streamflow.core.workflow import Command, CommandTokenProcessor
+
+        lc = self.m["DLC"](ctx.database)
+        row = json.loads(json.dumps(row))          # what a database round trip leaves of it
+        if family == "cmd":
+            return await Command.load(row, lc, step)
+        if family == "cmdtok":
+            return await CommandTokenProcessor.load(row, lc)
+        if family == "out":
+            return await cp.CommandOutputProcessor.load(row, lc)
+        if family == "tp":
+            return await cp.TokenProcessor.load(row, lc)
+        if family == "hw":
+            return await HardwareRequirement.load(row, lc)
+        raise ValueError(family)
+
+    async def _run_proc(self, case):
+        ctx = self._ctx()
+        try:
+            wf = self.m["Workflow"](ctx, config={}, name="wf")
+            await wf.save(ctx.database)
+            obj = self._mk_tree(case["tree"], wf)
+            stored = await obj.save(ctx.database)
+            stored = json.loads(json.dumps(stored))
+            o = {"stored": stored, "wid": wf.persistent_id, "orig": self._dump_obj(obj), "orig_node": self._node(obj, stored)}
+            try:
+                l1 = await self._load_tree(case["family"], stored, ctx)
+                l2 = await self._load_tree(case["family"], stored, ctx)
+            except Exception as e:  # noqa  (a load that raises is an observation)
+                o["load_error"] = f"{type(e).__name__}: {e}"[:300]
+                return o
+            o["l1"], o["l2"], o["l1_node"] = self._dump_obj(l1), self._dump_obj(l2), self._node(l1, stored)
+            self._scribble(l1)
+            o["l2_after"] = self._dump_obj(l2)
+            o["l3"] = self._dump_obj(await self._load_tree(case["family"], stored, ctx))
+            return o
+        finally:
+            await ctx.database.close()
+
+    def _scribble(self, obj, depth=0):
+        """the caller changes every mutable attribute it can reach"""
+        if depth > 12 or obj is None or isinstance(obj, (bool, int, str)):
+            return
+        if isinstance(obj, list):
+            for x in obj:
+                self._scribble(x, depth + 1)
+            obj.append("intruder")
+        elif isinstance(obj, dict):
+            for x in list(obj.values()):
+                self._scribble(x, depth + 1)
+            obj["intruder"] = "x"
+        elif hasattr(obj, "__dict__") and not isinstance(obj, (self.m["Workflow"], type)):
+            for k, v in list(vars(obj).items()):
+                if k in ("workflow", "step"):
+                    continue
+                if isinstance(v, str):
+                    setattr(obj, k, v + "x")
+                else:
+                    self._scribble(v, depth + 1)
 
     # -- configurations
     def _mk_binding(self, case):
@@ -858,6 +1218,8 @@ class C08(Prop):
             await ctx.database.close()
 
     def impl_run(self, case):
+        if case["f"] == "proc":
+            return self.loop.run_until_complete(self._run_proc(case))
         if case["f"] == "cfg":
             return self.loop.run_until_complete(self._run_cfg(case))
         if case["f"] == "tok":
@@ -882,6 +1244,18 @@ class C08(Prop):
                 return ("loads-independent", f"mutating one loaded token changed the other: {c(o['l2_after'])[:300]}")
             if c(o["l3"]) != want or not o["rows_after"]:
                 return ("stored-record-unchanged", f"after mutating a loaded token a new load gives {c(o['l3'])[:300]}")
+            return None
+        if case["f"] == "proc":
+            if "load_error" in o:
+                return ("load-raises", f"loading what save() produced raised {o['load_error']}")
+            want = c(o["orig"])
+            for k in ("l1", "l2"):
+                if c(o[k]) != want:
+                    return ("tree-roundtrip", f"loaded object differs from the saved one: {self._diff(o['orig'], o[k])}")
+            if c(o["l2_after"]) != want:
+                return ("loads-independent", f"mutating one loaded object changed the other: {self._diff(o['orig'], o['l2_after'])}")
+            if c(o["l3"]) != want:
+                return ("stored-record-unchanged", f"after mutating a loaded object a new load differs: {self._diff(o['orig'], o['l3'])}")
             return None
         if case["f"] == "cfg":
             strip = lambda d: json.loads(json.dumps(d, sort_keys=True).replace('"flag_types": ["int", "int"]', '"flag_types": ["bool", "bool"]'))
@@ -935,6 +1309,12 @@ class C08(Prop):
 
     def signature(self, case, o, clause):
         where = ""
+        if case["f"] == "proc":
+            cls = ""
+            if clause == "tree-roundtrip" and "l1" in o:
+                d = self._diff(o["orig"], o["l1"] if json.dumps(o["orig"], sort_keys=True) != json.dumps(o["l1"], sort_keys=True) else o["l2"])
+                cls = "/" + d.split(":")[0].strip("/").split("/")[-1]
+            return f"proc/{case['family']}/{clause}/{case['tree']['c']}{cls}"
         if case["f"] == "cfg" and clause == "config-roundtrip" and "orig" in o:
             for k in ("l1", "l2"):
                 if json.dumps(o["orig"], sort_keys=True) != json.dumps(o[k], sort_keys=True):
@@ -951,7 +1331,7 @@ class C08(Prop):
                 if k in o and json.dumps(a, sort_keys=True) != json.dumps(b, sort_keys=True):
                     d = self._diff(a, b).split(":")[0]
                     # the structural part of the path only (no concrete step / port / key names)
-                    vocab = ("steps", "ports", "in", "out", "status", "terminated", "comb", "items", "map", "sub", "depth", "config",
+                    vocab = ("steps", "ports", "in", "out", "status", "terminated", "skip_ports", "cwl", "comb", "items", "map", "sub", "depth", "config",
                              "output_ports", "input_ports", "name", "cls", "wf_is_this", "has_id")
                     where = "/" + "/".join(p for p in d.split("/") if p in vocab)
                     break
@@ -990,6 +1370,14 @@ class C08(Prop):
         return coq_list(out)
 
     def coq_case(self, case, o):
+        if case["f"] == "proc":
+            if "stored" not in o:
+                return None
+            w = coq_opt(o["wid"] if case["family"] in ("out", "tp") else None, coq_nat)
+            orig, stored = coq_ptree(o["orig_node"]), coq_dtree(o["stored"])
+            if orig is None or stored is None:
+                return None
+            return f"XTree (CTree {w} {orig} {stored} {coq_opt(coq_ptree(o.get('l1_node')), lambda x: x)})"
         if case["f"] == "cfg":
             if "tables" not in o or o["orig"]["shared_deployments"]:
                 return None          # shared configuration objects: outside the (tree) model
@@ -1001,10 +1389,10 @@ class C08(Prop):
         if case["f"] == "wf":
             if "tables" not in o:
                 return None
-            orig, db = coq_pwf(o["orig"]), coq_wdb(o["tables"])
+            orig, db = coq_pwf(o["orig"], o.get("orig_nodes")), coq_wdb(o["tables"])
             if orig is None or db is None:
                 return None
-            return f"XWf (CWf {orig} {db} {coq_nat(o['wid'])} {coq_opt(coq_pwf(o['l1']), lambda x: x)})"
+            return f"XWf (CWf {orig} {db} {coq_nat(o['wid'])} {coq_opt(coq_pwf(o['l1'], o.get('l1_nodes')), lambda x: x)})"
         if case["f"] != "tok" or "rows" not in o or not tok_in_model(case["t"]):
             return None
         rows = self._coq_rows(o["rows"])
@@ -1014,6 +1402,8 @@ class C08(Prop):
         return f"XTok (CTok {coq_ptok(case['t'])} {rows} {coq_nat(o['root'])} {coq_opt(loaded, coq_ptok)})"
 
     def nontrivial(self, case):
+        if case["f"] == "proc":
+            return bool(case["tree"].get("sub"))
         if case["f"] == "cfg":
             return len(case["targets"]) + len(case["filters"]) >= 1
         if case["f"] == "tok":
@@ -1021,6 +1411,17 @@ class C08(Prop):
         return len(case["steps"]) >= 1
 
     def shrink(self, case):
+        if case["f"] == "proc":
+            sub = case["tree"].get("sub")
+            kids = [x for _, x in sub] if isinstance(sub, list) and sub and isinstance(sub[0], list) else \
+                (sub if isinstance(sub, list) else ([sub] if sub else []))
+            for k in kids:
+                if case["family"] != "cmd":
+                    yield {**case, "tree": k}
+            if isinstance(sub, list) and len(sub) > 1:
+                for i in range(len(sub)):
+                    yield {**case, "tree": {**case["tree"], "sub": sub[:i] + sub[i + 1:]}}
+            return
         if case["f"] == "cfg":
             for k in ("targets", "filters"):
                 for i in range(len(case[k])):
